@@ -276,6 +276,13 @@ func searchC10() {
 			}
 		}
 	}
+	// years whose lunar New Year falls in the previous civil year (16 and 19): the candidate year's term table must be the civil
+	// year's (repaired by fix ad2a43f); always probed with base year 1
+	if shardI == 0 {
+		for _, c := range [][6]int{{16, 6, 19, 4, 54, 22}, {16, 3, 25, 4, 0, 25}, {16, 8, 13, 10, 22, 10}, {19, 7, 5, 7, 26, 13}, {19, 6, 18, 13, 49, 44}, {19, 11, 2, 23, 30, 0}} {
+			both(sol(c[0], c[1], c[2], c[3], c[4], c[5]), 1)
+		}
+	}
 	ck.finish(map[string]int{"lookups": nLookups, "returned_moments": nReturned, "empty_results": nEmpty, "incomplete_jie_in_slot": nJieInSlot, "incomplete_jie_in_slot_distinct": len(jieKeys), "incomplete_before_lichun_of_base_year": nBeforeLichun,
 		"incomplete_other": nIncompleteOther, "outside_completeness_domain": nOutOfDomain}, samples)
 }
